@@ -31,7 +31,7 @@ def floors(tier):
 
 
 def run(ctx):
-    sf = env.load_selfies()
+    sf = env.varied(env.load_selfies(), ctx)
     hooks.attach_m1()
     hooks.attach_m1_encoder()
     rng = ctx.rng
